@@ -317,9 +317,17 @@ pub fn step_for_each(c: &ACfg) {
 
 /// buffered_ordered(n) / try_buffered_ordered(n)
 pub fn step_buffered_ordered(c: &ACfg, try_: bool) {
+    step_buffered_ordered_q(c, try_, false)
+}
+
+/// `quiet_queue`: the ready queue of the in-flight collection is concretely empty
+/// (no future is polled by the call): what the adapter does with upstream and
+/// with parked outputs is then cheap to explore, also for code that polls the
+/// collection more than once per call
+pub fn step_buffered_ordered_q(c: &ACfg, try_: bool, quiet_queue: bool) {
     gh::reset();
     let oc = OCfg { cap: c.n, max_parked: c.parked, selfwakes: c.selfwakes };
-    let o = fob::gen_opre(&oc);
+    let o = if quiet_queue { fob::gen_opre_q0(&oc) } else { fob::gen_opre(&oc) };
     // C16 holds in the pre-state: at most n items pulled and not yet yielded
     nd::assume(o.len <= c.n, "C16:pre");
     let gh = g();
